@@ -1,0 +1,11 @@
+//go:build verif
+
+package openapi3filter
+
+import "github.com/getkin/kin-openapi/openapi3"
+
+// VerifDecodeStyledParameter exposes the styled-parameter decoder to the verification harness
+// (build tag verif only): the decoded value, whether the parameter was found, and the error.
+func VerifDecodeStyledParameter(param *openapi3.Parameter, input *RequestValidationInput) (any, bool, error) {
+	return decodeStyledParameter(param, input)
+}
